@@ -12,6 +12,7 @@ import (
 	"fmt"
 	"os"
 	"sort"
+	"strconv"
 	"strings"
 
 	"git.metabarcoding.org/obitools/obitools4/obitools4/pkg/obiseq"
@@ -60,7 +61,12 @@ func buildSeqs(ds gen.C13Data, variant int) obiseq.BioSequenceSlice {
 		}
 		if ds.Attr {
 			for k := range s.Counts {
-				bs.SetAttribute(ds.Tag, k)
+				if n, err := strconv.Atoi(k); err == nil && k[0] != '0' && variant%2 == 0 {
+					// a numbered sample, typed as the header parsers type it
+					bs.SetAttribute(ds.Tag, n)
+				} else {
+					bs.SetAttribute(ds.Tag, k)
+				}
 			}
 		} else {
 			switch variant % 3 {
